@@ -124,7 +124,9 @@ def scalar_family():
     fam.append(('extras', {'classes': BASE + [_K([('x', 'int'), ('y', 'str', 'd')], extra=True)], 'root': ('cls', 'K')},
                 lambda b: [b.classes['K'](1, 'd', collections.OrderedDict()),
                            b.classes['K'](1, 'v', collections.OrderedDict([('z', 1), ('a', [1, {'k': 'v'}]), ('m', {'b': 1, 'a': None})])),
-                           b.classes['K'](2, 'd', collections.OrderedDict([('1', 'one'), ('true', True), ('f', 1.5)]))]))
+                           b.classes['K'](2, 'd', collections.OrderedDict([('1', 'one'), ('true', True), ('f', 1.5)])),
+                           # extra attributes may have any name, also the ones the constructor machinery uses
+                           b.classes['K'](3, 'd', collections.OrderedDict([('self', 'me'), ('_yatiml_extra', {'a': 1}), ('cls', 2)]))]))
     fam.append(('hier', {'classes': BASE + [{'name': 'A', 'params': [('x', 'int')]},
                                             {'name': 'B', 'bases': ['A'], 'params': [('x', 'int'), ('y', 'int')]},
                                             {'name': 'C', 'bases': ['A'], 'params': [('x', 'int'), ('z', 'str')]}],
